@@ -755,6 +755,43 @@ pub fn cases(seed: u64, tier: &str) -> Vec<CaseSpec> {
             }
         }
     }
+    // 2f. after a rejected candidate, the good one: shared prefix, main chain of m blocks, m valid fork blocks (a dependency
+    //     chain, stored as side blocks), then a BAD block on the fork's tip (the candidate is tried and rolled back), then a
+    //     good sibling of that bad block — its arrival completes a valid, longer, heavier chain, which must be adopted — and a
+    //     child of it
+    for shared in [1usize, 2] {
+        for m in 2..=(if thorough { 4usize } else { 3 }) {
+            for kind in 0..3u8 {
+                let mut parents: Vec<Option<usize>> = vec![];
+                for i in 0..shared + m {
+                    parents.push(if i == 0 { None } else { Some(i - 1) });
+                }
+                for i in 0..m {
+                    parents.push(if i == 0 { Some(shared - 1) } else { Some(shared + m + i - 1) });
+                }
+                let fork_tip = shared + 2 * m - 1;
+                parents.push(Some(fork_tip)); // the bad block
+                parents.push(Some(fork_tip)); // its good sibling
+                parents.push(Some(fork_tip + 2)); // a child of the good sibling
+                let mut specs = attr(&mut r, &parents, None, false);
+                for (i, s) in specs.iter_mut().enumerate() {
+                    s.gt = true;
+                    s.dt = if i >= shared + m { 250 } else { 400 };
+                    s.tx = if i >= shared + m { 3 } else { 1 };
+                    s.tamper = false;
+                }
+                let bad = fork_tip + 1;
+                match kind {
+                    0 => specs[bad].tamper = true,
+                    1 => specs[bad].tx = 2,
+                    _ => specs[bad].tx = 4,
+                }
+                specs[bad + 1].dt = 251;
+                let order: Vec<usize> = (0..parents.len()).collect();
+                v.push(CaseSpec { specs, orders: vec![order], prune_after: 50 });
+            }
+        }
+    }
     // 2e. the ticket rule at the tip of a fork: every placement of tickets in the six blocks ending at the fork's tip
     //     (6 - L shared blocks just below the fork point, then the L fork blocks), everything else carries a ticket
     for l in 2..=4usize {
